@@ -86,6 +86,10 @@ pub enum OwnerOp {
     Yield,
     JoinWorkers,
     Gate(u64),
+    /// the broker closes the nth kept channel; the owner waits for that to be processed and drops its handle
+    ServerCloseKept { nth: usize, code: u16 },
+    /// publish `count` messages of `len` bytes on the nth kept channel
+    PublishKept { nth: usize, count: usize, len: usize },
 }
 
 #[derive(Clone, Debug, PartialEq)]
@@ -145,11 +149,11 @@ fn owner_main(plan: SessionPlan, stream: crate::stream::SimStream, hist: Hist) {
             let ret = stamp();
             match r {
                 Ok(ch) => {
-                    hist.lock().unwrap().conn.push(ConnRec::OpenChannel { requested: *id, invoke, ret, result: Ok(ch.channel_id()), for_thread: thread_no, slot });
+                    hist.lock().unwrap().conn.push(ConnRec::OpenChannel { requested: *id, invoke, ret, result: Ok(ch.channel_id()), for_thread: thread_no, slot, keep: false });
                     chans.push(ChanCtx::new(ch));
                 }
                 Err(e) => {
-                    hist.lock().unwrap().conn.push(ConnRec::OpenChannel { requested: *id, invoke, ret, result: Err(err_string(&e)), for_thread: thread_no, slot });
+                    hist.lock().unwrap().conn.push(ConnRec::OpenChannel { requested: *id, invoke, ret, result: Err(err_string(&e)), for_thread: thread_no, slot, keep: false });
                     chans.push(ChanCtx { ptr: std::ptr::null_mut(), id: 0, closed: true, returns: None, confirms: None, kept: Vec::new() });
                 }
             }
@@ -176,7 +180,7 @@ fn owner_main(plan: SessionPlan, stream: crate::stream::SimStream, hist: Hist) {
                 let ret = stamp();
                 match r {
                     Ok(ch) => {
-                        hist.lock().unwrap().conn.push(ConnRec::OpenChannel { requested: *id, invoke, ret, result: Ok(ch.channel_id()), for_thread: 0, slot: kept.len() });
+                        hist.lock().unwrap().conn.push(ConnRec::OpenChannel { requested: *id, invoke, ret, result: Ok(ch.channel_id()), for_thread: 0, slot: kept.len(), keep: *keep });
                         if *keep {
                             kept.push(Some(ch));
                         } else {
@@ -184,14 +188,17 @@ fn owner_main(plan: SessionPlan, stream: crate::stream::SimStream, hist: Hist) {
                         }
                     }
                     Err(e) => {
-                        hist.lock().unwrap().conn.push(ConnRec::OpenChannel { requested: *id, invoke, ret, result: Err(err_string(&e)), for_thread: 0, slot: kept.len() });
+                        hist.lock().unwrap().conn.push(ConnRec::OpenChannel { requested: *id, invoke, ret, result: Err(err_string(&e)), for_thread: 0, slot: kept.len(), keep: *keep });
                     }
                 }
             }
             OwnerOp::CloseKept { nth } => {
                 if let Some(slot) = kept.get_mut(*nth) {
                     if let Some(ch) = slot.take() {
-                        let _ = ch.close();
+                        let id = ch.channel_id();
+                        let invoke = stamp();
+                        let r = ch.close();
+                        hist.lock().unwrap().conn.push(ConnRec::KeptClosed { id, invoke, result: r.map_err(|e| err_string(&e)) });
                     }
                 }
             }
@@ -216,6 +223,35 @@ fn owner_main(plan: SessionPlan, stream: crate::stream::SimStream, hist: Hist) {
             OwnerOp::SleepNs(ns) => simrt::sleep_ns(*ns),
             OwnerOp::Yield => simrt::yield_point("owner.yield"),
             OwnerOp::Gate(id) => simrt::gate_wait(*id),
+            OwnerOp::ServerCloseKept { nth, code } => {
+                if let Some(slot) = kept.get_mut(*nth) {
+                    if let Some(ch) = slot.take() {
+                        let id = ch.channel_id();
+                        let code = *code;
+                        crate::world::call_in(0, move |w| w.broker.do_action(crate::broker::Action::CloseChannel { ch: id, code, text: format!("server-close-{}", id) }));
+                        simrt::sleep_ns(20_000_000);
+                        hist.lock().unwrap().notes.push(format!("server-closed {}", id));
+                        drop(ch);
+                    }
+                }
+            }
+            OwnerOp::PublishKept { nth, count, len } => {
+                if let Some(Some(ch)) = kept.get(*nth) {
+                    let id = ch.channel_id();
+                    for k in 0..*count {
+                        let mark = format!("own{}p{}", id, k);
+                        let body = make_body(&mark, *len);
+                        let invoke = stamp();
+                        let invoke_ns = simrt::now_ns();
+                        let r = ch.basic_publish("", amiquip::Publish::new(&body, mark.clone()));
+                        let result = match r {
+                            Ok(()) => OpResult::Unit,
+                            Err(e) => OpResult::Err(err_string(&e)),
+                        };
+                        hist.lock().unwrap().ops.push(OpRec { thread: 0, slot: *nth, ch_id: id, idx: i * 10_000 + k, op: Op::Publish { exchange: String::new(), rk: mark.clone(), mandatory: false, immediate: false, props: 0, body_len: *len, via_exchange: false }, mark, invoke, ret: stamp(), invoke_ns, ret_ns: simrt::now_ns(), result });
+                    }
+                }
+            }
             OwnerOp::JoinWorkers => {
                 if !joined {
                     for w in workers.drain(..) {
@@ -235,7 +271,10 @@ fn owner_main(plan: SessionPlan, stream: crate::stream::SimStream, hist: Hist) {
     }
     for k in kept.iter_mut() {
         if let Some(ch) = k.take() {
-            let _ = ch.close();
+            let id = ch.channel_id();
+            let invoke = stamp();
+            let r = ch.close();
+            hist.lock().unwrap().conn.push(ConnRec::KeptClosed { id, invoke, result: r.map_err(|e| err_string(&e)) });
         }
     }
     simrt::set_note("owner: closing connection".into());
